@@ -4,6 +4,7 @@ import Driver.CacheCmds
 import Driver.UpstreamCmds
 import Driver.ResolveCmds
 import Driver.ServerCmds
+import Driver.HostsCmds
 import Resolved.Spec.RefDecode
 
 namespace Resolved.Driver
@@ -146,6 +147,13 @@ def dispatch (fields : List String) : Result :=
     { model := "alive", oracle := if impl == "alive" then "ok" else "fail:C09:server-died", tags := "alive" }
   | ["server.start", _, impl] => { model := "started", oracle := "fail:C09:server-did-not-start:" ++ impl }
   | ["server.reload", steps, impl] => cmdServerReload steps impl
+  | ["hosts.parse", hex, impl] => cmdHostsParse hex impl
+  | ["hosts.roundtrip", d, impl] => cmdHostsRoundtrip d impl
+  | ["hosts.tozone", d, impl] => cmdHostsToZone d impl
+  | ["hosts.merge", a, b, impl] => cmdHostsMerge a b impl
+  | ["hosts.lossy", z, impl] => cmdHostsLossy z impl
+  | ["ip.parse", hex, impl] => cmdIpParse hex impl
+  | ["ip.show", v, impl] => cmdIpShow v impl
   | cmd :: _ => bad ("unknown " ++ cmd)
   | [] => bad "empty"
 
